@@ -641,6 +641,8 @@ def check_case(case, ctx: Ctx) -> CaseResult:
                     f'{gp2.triggers} {n2["required"]}'))
     if int(jhash([fams, chains])[:8], 16) % 20 == 0:
         classes.append('via-config')
+        if int(jhash([chains, fams])[:8], 16) % 2 == 0:
+            classes.append('via-config:member-with-family-as-second-parent')
         viol += _check_config(fams, chains, model, ctx)
     seen, out = set(), []
     for v in viol:
@@ -652,7 +654,7 @@ def check_case(case, ctx: Ctx) -> CaseResult:
 
 
 # ------------------------------------------------------------ config level
-def _flow(fams, chains, text):
+def _flow(fams, chains, text, multi=False):
     lines = ['[scheduler]', '    allow implicit tasks = True',
              '[scheduling]', '    cycling mode = integer',
              '    initial cycle point = 1', '    final cycle point = 3',
@@ -674,10 +676,17 @@ def _flow(fams, chains, text):
         lines.append(f'    [[{f}]]')
         if f in parent:
             lines.append(f'        inherit = {parent[f]}')
+    if multi:
+        # multiple inheritance: every other member task reaches its family
+        # as a SECOND parent (it is a member all the same)
+        lines.append('    [[OTHER_NS]]')
+    k = 0
     for m in sorted(parent):
         if m in fams:
             continue
-        lines += [f'    [[{m}]]', f'        inherit = {parent[m]}']
+        k += 1
+        first = 'OTHER_NS, ' if (multi and k % 2 == 0) else ''
+        lines += [f'    [[{m}]]', f'        inherit = {first}{parent[m]}']
     for name in sorted(custom):
         lines += [f'    [[{name}]]', '        [[[outputs]]]']
         for q in sorted(custom[name]):
@@ -688,7 +697,8 @@ def _flow(fams, chains, text):
 def _check_config(fams, chains, model, ctx):
     from cylc.flow.exceptions import CylcError
     from vf.cylcutil import load_config
-    text = _flow(fams, chains, B.render(chains, []))
+    multi = int(jhash([chains, fams])[:8], 16) % 2 == 0
+    text = _flow(fams, chains, B.render(chains, []), multi)
     try:
         cfg = load_config(text, ctx.scratch)
     except CylcError as exc:
